@@ -121,3 +121,23 @@ Theorem C12_three_point_get_dx_increasing : forall (d15 d50 d85 Dp nu rhol rhos 
   forall f1 f2, 0 < f1 -> f1 < f2 -> f2 < 1 -> get_dx RN res f1 < get_dx RN res f2.
 Proof. exact LC12f.three_point_get_dx_increasing. Qed.
 Print Assumptions C12_three_point_get_dx_increasing.
+
+From DHV Require Import LC12g.
+(* faithful BETWEEN the given points: for a fraction strictly between two tabulated fractions the lookup stays strictly
+   between the two tabulated diameters -- for every grading with increasing fractions and positive increasing diameters *)
+Theorem C12_get_dx_between_nodes : forall (g : list (R * R)) (fa da fb db f : R),
+  both_increasing g -> Forall (fun p => 0 < snd p) g -> (2 <= length g)%nat ->
+  In (fa, da) g -> In (fb, db) g -> 0 < fa -> fb < 1 -> fa < f < fb ->
+  da < get_dx RN g f < db.
+Proof. exact LC12g.get_dx_between_nodes. Qed.
+Print Assumptions C12_get_dx_between_nodes.
+
+(* closed form for the slurry object's D15 / D50 / D85 input: between 15 % and 85 % the generated grading never leaves
+   [D15, D85], and D50 separates the two halves *)
+Theorem C12_three_point_between : forall (d15 d50 d85 Dp nu rhol rhos : R),
+  0 < d15 < d50 /\ d50 < d85 -> 0 < Framework.pseudo_dlim RN Dp nu rhol rhos < d50 ->
+  let res := create_fracs RN [(15 / 100, d15); (50 / 100, d50); (85 / 100, d85)] Dp nu rhol rhos 10 in
+  forall f, (5 / 10 < f < 85 / 100 -> d50 < get_dx RN res f < d85) /\
+            (15 / 100 < f < 5 / 10 -> d15 < get_dx RN res f < d50).
+Proof. exact LC12g.three_point_between. Qed.
+Print Assumptions C12_three_point_between.
